@@ -236,6 +236,31 @@ def check(chk, lib):
             chk.violation("OPT.value_or", "value_or", where(f), "value_or of %s: %s" % (D, "; ".join(errs)))
         else:
             chk.ok("OPT.value_or", "value_or<%s>" % D.split("::")[-1], {"paths": len(s.live)})
+    # value() / operator* hand out the stored representation unchanged - also for a null optional (the documented
+    # "returns underlying value"): the bits read from the buffer are what the caller gets (NaN payloads, -0.0)
+    for tp in ("sbepp::detail::optional_base", "sbepp::detail::required_base"):
+        for nm in ("value", "operator*"):
+            for f in lib.fns(tp, nm):
+                if f.get("params"):
+                    continue
+                n += 1
+                D = (f.get("cls_targs") or ["?", "?"])[1]
+                errs = []
+                for p in lib.summary(f).live:
+                    r = p.ret
+                    if isinstance(r, Loc):
+                        # non-const overload: a reference to the member itself
+                        if r.key != "val":
+                            errs.append("returns a reference to member %s" % r.key)
+                    elif r is None or isinstance(r, (MemLoc, Obj)) or lin(r) != sym("this.val"):
+                        errs.append("returns %s" % (show(r) if isinstance(r, Lin) else type(r).__name__))
+                    if [e for e in p.events if e[0] in ("write",)]:
+                        errs.append("writes")
+                if errs:
+                    chk.violation("OPT.value", "%s.%s" % (tp.split("::")[-1], nm), where(f),
+                                  "%s() of %s must return the stored value unchanged on every path: %s" % (nm, D, "; ".join(sorted(set(errs))[:3])))
+                else:
+                    chk.ok("OPT.value", "%s<%s>" % (nm, D.split("::")[-1]), {"returns": "this.val"})
     for tp in ("sbepp::detail::optional_base", "sbepp::detail::required_base"):
         for f in lib.fns(tp, "in_range"):
             n += 1
